@@ -259,6 +259,16 @@ func (v *Vue) parseObjectPairs(ctx VueContext, content string) ([]objectPair, er
 		key = strings.Trim(key, "'\"")
 		valueExpr := strings.TrimSpace(item[colonIdx+1:])
 
+		// A filter chain (items | len) means what it means in {{ }}, a plain binding and v-if
+		if pipe, ok := v.filterChain(valueExpr); ok {
+			val, err := v.evalPipe(ctx, pipe)
+			if err != nil {
+				return nil, fmt.Errorf("in expression '%s': %w", valueExpr, err)
+			}
+			pairs = append(pairs, objectPair{key: key, val: val})
+			continue
+		}
+
 		// Try to resolve as expression first (handles literals and expressions)
 		val, err := v.exprEval.Eval(valueExpr, v.exprEnv(ctx, valueExpr))
 		if isFuncCallError(err) {
